@@ -47,6 +47,31 @@ ModelOnBin(N, f, Dn, c, w) ==
 \* the model binned to the observation: element i <-> centre wn[i], width w[i] (and value val[i])
 ModelOnObs(wn, w, N, f, Dn) == [i \in 1..Len(wn) |-> ModelOnBin(N, f, Dn, wn[i], w[i])]
 
+\* ---------------------------------------------------- coverage of the bins by the model
+\* The model's native cells N (ordered, disjoint, given with their widths) need NOT reach over every bin of
+\* the observation: an instrument point beyond either end of the model grid, or in a gap of it.  Element i
+\* stays the model over the bin of element i wherever that bin overlaps the native cells (the mean over the
+\* covered part: C05 "for every target bin that overlaps the native grid"); a bin the model does not reach
+\* carries no model flux ("outside") and must not move the others; zero-length contact is not decided.
+CovOf(N, Dn, c, w) ==
+    LET lo == BinLo(c, w)  hi == BinHi(c, w)  Nn == NatOn(N, lo, hi)  tb == TgtOn(lo, hi, Dn)  ws == B!WSum(Nn, tb)
+    IN  IF ws = tb[2] - tb[1] THEN "full" ELSE IF ws > 0 THEN "partial" ELSE IF B!Touches(Nn, tb) THEN "touch" ELSE "outside"
+CovBin(N, f, Dn, c, w) == LET k == CovOf(N, Dn, c, w) IN
+    IF k \in {"full", "partial"} THEN [k |-> "num", v |-> ModelOnBin(N, f, Dn, c, w)] ELSE [k |-> k]
+ModelOnObsCov(wn, w, N, f, Dn) == [i \in 1..Len(wn) |-> CovBin(N, f, Dn, wn[i], w[i])]
+\* where the bins without model sit in the (ascending) order of the elements: before the first covered one,
+\* after the last, between two covered ones; whether a bin is covered in part only
+CovPattern(wn, w, N, Dn) ==
+    LET kind == [i \in 1..Len(wn) |-> CovOf(N, Dn, wn[i], w[i])]
+        cov  == {i \in 1..Len(wn) : kind[i] \in {"full", "partial"}}
+        out  == {i \in 1..Len(wn) : kind[i] = "outside"}
+    IN  [low     |-> cov # {} /\ \E i \in out : \A j \in cov : i < j,
+         high    |-> cov # {} /\ \E i \in out : \A j \in cov : i > j,
+         mid     |-> \E i \in out : \E j, m \in cov : j < i /\ i < m,
+         partial |-> \E i \in 1..Len(wn) : kind[i] = "partial",
+         touch   |-> \E i \in 1..Len(wn) : kind[i] = "touch",
+         nout    |-> Cardinality(out), ncov |-> Cardinality(cov)]
+
 \* ---------------------------------------------------- geometry of the bins
 \* (wn ascending as loaded; classes of the input space the clause must hold on)
 GLo(wn, w, i) == BinLo(wn[i], w[i])
@@ -91,19 +116,25 @@ WinBin(mn, mx, f, tb2, tw, sp, ep) ==
         idx  == {i \in 1..n : i >= st + 1 /\ i <= en + 1}
         wt   == [i \in 1..n |-> IF i \in idx THEN B!IMin(tmax, mx[i]) - B!IMax(mn[i], tmin) ELSE 0]
         sw   == B!ISum(wt)
-    IN  [st |-> st, en |-> en,
+        skip == ~(tmin <= mx[st + 1]) \/ ~(mn[en + 1] <= tmax)      \* the loop's "continue": nothing is written
+    IN  [st |-> st, en |-> en, skip |-> skip,
          r  |-> IF ~(tmin <= mx[st + 1]) \/ ~(mn[en + 1] <= tmax) THEN [k |-> "zero"]
                 ELSE IF idx = {} THEN [k |-> "zero"]
                 ELSE IF sw = 0 THEN [k |-> "nan"]
                 ELSE [k |-> "num", v |-> Norm(B!ISum([i \in 1..n |-> wt[i] * f[i]]), sw)]]
-\* variants: "ok" | "resumestart" | "resumestop" | "resume" (both)
+\* variants: "ok" | "resumestart" | "resumestop" | "resume" (both) |
+\*           "compact": the result of a bin is written at a running counter of the bins written so far, not at the
+\*                      bin's own index (equal as long as no bin is skipped: every bin reached by the model)
 RECURSIVE WinFluxFrom(_, _, _, _, _, _, _, _, _)
 WinFluxFrom(mn, mx, f, tc2, tw, k, sp, ep, v) ==
     IF k > Len(tc2) THEN <<>>
     ELSE LET b == WinBin(mn, mx, f, tc2[k], tw[k],
                          IF v \in {"resumestart", "resume"} THEN sp ELSE 0,
                          IF v \in {"resumestop", "resume"} THEN ep ELSE 0)
-         IN  <<b.r>> \o WinFluxFrom(mn, mx, f, tc2, tw, k + 1, b.st, b.en, v)
+         IN  <<b>> \o WinFluxFrom(mn, mx, f, tc2, tw, k + 1, b.st, b.en, v)
 \* targets tc2 / tw in the binner's (ascending) order
-WinFlux(mn, mx, f, tc2, tw, v) == WinFluxFrom(mn, mx, f, tc2, tw, 1, 0, 0, v)
+WinFlux(mn, mx, f, tc2, tw, v) ==
+    LET raw  == WinFluxFrom(mn, mx, f, tc2, tw, 1, 0, 0, v)
+        kept == SelectSeq(raw, LAMBDA b : ~b.skip)
+    IN  [i \in 1..Len(raw) |-> IF v # "compact" THEN raw[i].r ELSE IF i <= Len(kept) THEN kept[i].r ELSE [k |-> "zero"]]
 =============================================================================
